@@ -601,7 +601,7 @@ func c15Gen(g *Gen) {
 	c15SameLength(g)
 	c15Malformed(g)
 	// random programs
-	for i := 0; i < g.Pick(2000, 40000); i++ {
+	for i := 0; i < g.Pick(1500, 40000); i++ {
 		x := &c15G{g: g, r: r, cand: map[string][]string{}}
 		prog := x.nodes(0, 1, 4)
 		c15MakeAliasSafe(prog)
